@@ -34,10 +34,58 @@ CHECKS = {
          "One transient fault (statement returns an error instead of executing, or request answered by RPC error / HTTP 500 / truncated body / reset) per run on special blocks, plus sampled pairs; every state committed from the faulted block on must equal the fault-free reference; crash-stop after a fault is resumed by a fresh process. Quick = every distinct (call site, statement shape) and request kind; thorough = every index.",
          "Faults only at boundaries where the real system can fail; transient by construction.",
          "DESIGN.md §3 C10"),
+ "C03": ("exploration", "one-step reference-model monitor (two-pass funds rule) over adaptive workloads",
+         "Well-signed batches with amounts at balance-1/balance/balance+1, several draws on one balance, self-credits, conversion-then-spend, zero and 2^63-1 amounts are considered by the real daemon on adaptively forged ledgers in every era; after each block every balance, the recorded status and the sign of every balance column are compared with the reference rule re-based on the observed previous state.",
+         "Reference rules written from the statement; fat2 parsing/signature validation trusted here (C05/C20 judge it).",
+         "DESIGN.md §3 C03"),
+ "C04": ("exploration", "one-step supply/balance conservation monitor against a reference model",
+         "Per block and asset the observed supply delta must equal the sum of the block's issuance/destruction events computed by the reference rules, and every address/asset balance must equal the prediction (nobody else changes; debit == credits), on busy mixed workloads crossing all eras.",
+         "Grader library verdicts taken as given; burn-address semantics resolved from code where the statement is silent (documented).",
+         "DESIGN.md §3 C04"),
+ "C07": ("exploration", "one-step conversion oracle (big-integer floor(in*S/D), next-rated-block rule) + value bound assertion",
+         "Thousands of conversions over all asset pairs, tiny to full-balance amounts, drifting rates and ungraded gaps: execution block, credited amount and recorded to_amount must equal the rule with the executing block's rates and (from PIP-10) min/max with the rolling average recomputed from recorded rates; out*D_spot <= in*S_spot asserted.",
+         "Averages defined over the height window of recorded rates (the definition the C09 fix settled); window 12 in compressed chains.",
+         "DESIGN.md §3 C07"),
+ "C11": ("exploration", "one-step reward/burn oracle using the grader library as verdict",
+         "OPR/SPR sets of every shape and factoid blocks with burns and near-misses; PEG/pFCT deltas per address and coinbase rows must equal the payouts of the library-graded winners (top-100 filter on the previous state) and the valid burns.",
+         "Grading algorithm = pegnet grader library output on the same entries; rank-100 ties not judged.",
+         "DESIGN.md §3 C11"),
+ "C12": ("exploration", "one-step rate oracle + immutability monitor",
+         "pn_rate rows of each block must be exactly those derived from winner[0] of the OPR and SPR grades under the era's band rule and PEG pricing phase; unrated blocks have no rows; earlier rows never change.",
+         "Band computed with the same floating-point formula the statement implies; pre-2.0.2 out-of-band shape is a recorded finding (tagged).",
+         "DESIGN.md §3 C12"),
+ "C13": ("exploration", "one-step admission oracle at activation boundaries",
+         "Conversions into every destination class submitted at activation-3..+2 of every activation from dedicated funded addresses; executed / reject code / dropped must match the statement's admission rule.",
+         "Covering sample of destination classes in quick, more seeds in thorough.",
+         "DESIGN.md §3 C13"),
+ "C14": ("exploration", "one-step holder-payout oracle at snapshot heights",
+         "Holder sets of 8-300 addresses, totals below/around/above the cap, ties, movements between snapshots; PEG deltas at snapshot heights must equal the min-of-two-snapshots, pUSD-valued, capped proportional allocation with the dust rule.",
+         "Snapshot copies kept by the lab itself (not the snapshot_* tables).",
+         "DESIGN.md §3 C14"),
+ "C15": ("exploration", "one-step literal-table oracle over activation alignments (+ literal-mainnet chain in thorough)",
+         "Developer table, mint table and special addresses copied literally into the lab; chains with random alignments of activations to the 144 cadence and funded special addresses; thorough adds the literal mainnet heights.",
+         "Alignments with recorded mock-txid collisions excluded from the default draw; one tagged alignment scenario.",
+         "DESIGN.md §3 C15"),
+ "C16": ("exploration", "one-step bank oracle (proportional allocation, dust, refund, bank row)",
+         "PEG request sets of 0..40 requests around the bank size, piled over ungraded blocks, across the V4 switch; yields, refunds, recorded amounts and pn_bank rows compared with the rule.",
+         "Mixed PEG-request batches are a recorded finding and not generated.",
+         "DESIGN.md §3 C16"),
+ "C17": ("exploration", "status/amount monitor + whole-history fold + paged enumeration through the real JSON-RPC server",
+         "Per batch status and recorded amounts vs. the reference verdict; folding all history rows plus row-less scheduled adjustments must reproduce every balance; get-transactions paged by address/hash/height/txid asc/desc must return each action exactly once with a correct count.",
+         "Runs on chains that produce every verdict code; API on loopback.",
+         "DESIGN.md §3 C17"),
  "C18": ("exploration", "Go race detector + differential ledger + committed-state history check (porcupine)",
          "The real JSON-RPC server and the real sync loop run concurrently under -race with 12-32 clients cycling all read methods and injected delays; race reports with daemon frames, runtime fatals, ledger difference against the no-load run, and any response (part) that shows a height whose COMMIT was not yet issued are violations; histories are also checked with porcupine against a committed-height register model.",
          "Schedules sampled; stale-but-committed answers are allowed (the property forbids uncommitted state, not staleness); cache-derived pUSD fields not compared.",
          "DESIGN.md §3 C18"),
+ "C19": ("exploration", "bounded-exhaustive session histories against the statement as oracle",
+         "Histories of up to 3 sessions (build version incl. legacy, blocks synced by the real DBlockSync) x fork tables with a fork at every height within +-1 of a session boundary; every start is a real NewPegnetd; accept/refuse compared with the ground truth of which build synced which height; literal fork table included.",
+         "Legacy builds emulated by deleting their pn_sync_version rows; forks never below the genesis height.",
+         "DESIGN.md §3 C19"),
+ "C20": ("exploration", "differential generation-based fuzzing against a strict reference reader and exact arithmetic",
+         "Grammar-generated and mutated batch contents (signed, so content rules decide) compared one-way with a strict FAT-2 reader, re-encode/decode round trips of every accepted batch, and decimal strings compared with big-integer conversion.",
+         "Case-variant keys, batch-level metadata, null amounts: recorded, not judged.",
+         "DESIGN.md §3 C20"),
 }
 
 NOT_YET = "check not built yet in this round; no claim is made"
